@@ -31,6 +31,7 @@ type SolverStats struct {
 	Errors   int
 	Time     time.Duration
 	MaxQuery time.Duration
+	ValueTime, PopTime time.Duration
 }
 
 type Solver struct {
@@ -127,6 +128,7 @@ func (s *Solver) Push() {
 }
 
 func (s *Solver) Pop() {
+	defer func(t0 time.Time) { s.Stats.PopTime += time.Since(t0) }(time.Now())
 	s.send("(pop 1)")
 	top := s.log[len(s.log)-1]
 	s.log = s.log[:len(s.log)-1]
@@ -337,8 +339,10 @@ func (s *Solver) Values(terms []*Term) ([]*big.Int, error) {
 		if len(idx) == 0 {
 			continue
 		}
+		t0 := time.Now()
 		s.send(b.String())
 		txt, err := s.readSexp()
+		s.Stats.ValueTime += time.Since(t0)
 		if err != nil {
 			return nil, err
 		}
